@@ -521,6 +521,29 @@ def rule_caller_owned(ctx):
                     close_nodes.append((node.id, sub.func.value.id, sub))
                 elif isinstance(sub, ast.Call) and _registered_close(sub):
                     close_nodes.append((node.id, _registered_close(sub), sub))
+        # `with target as f:` closes target on exit: target must not be (an alias of) the object the caller supplied
+        for wnode in [x for x in cfg.nodes if x.kind == "with-enter" and isinstance(x.ast, (ast.With, ast.AsyncWith))]:
+            for it in wnode.ast.items:
+                ce = it.context_expr
+                if not isinstance(ce, ast.Name):
+                    continue
+                origins, seen_, todo = set(), set(), [(ce.id, wnode.id)]
+                while todo:
+                    nm_, at_ = todo.pop()
+                    for d in rd.reaching(nm_, at_):
+                        if (nm_, d) in seen_:
+                            continue
+                        seen_.add((nm_, d))
+                        dn = cfg.nodes[d]
+                        if dn.kind == "entry" and nm_ in params:
+                            origins.add(nm_)
+                        elif dn.kind == "stmt" and isinstance(dn.ast, ast.Assign) and isinstance(dn.ast.value, ast.Name):
+                            todo.append((dn.ast.value.id, d))
+                n += 1
+                ctx.check(not origins, "IO.CALLER-OWNED", "%s#with(%s)" % (q, ce.id), fi, wnode.ast,
+                          "`with %s` never manages the caller's own object" % ce.id,
+                          "`with %s as ..` can hold the object passed in as %s: leaving the block calls its __exit__, i.e. closes the file the "
+                          "caller supplied (it must be wrapped, e.g. contextlib.nullcontext(%s))" % (ce.id, sorted(origins), sorted(origins)[0] if origins else ""))
         if not close_nodes:
             n += 1
             ctx.ok("IO.CALLER-OWNED", q + "#no-close", fi, fi.node,
